@@ -124,10 +124,12 @@ func replayBatch(cases []*replayFile, workDir string) []replayOutcome {
 				o.Reproduced = has(o.Fails, ob.ID)
 			case "cover":
 				o.Reproduced = has(o.Covers, ob.ID)
-			case "panic":
-				o.Reproduced = strings.HasPrefix(o.End, "PANIC") || (o.End == "" && (strings.Contains(text, "panic:") || strings.Contains(text, "fatal error:")))
-			case "deadlock", "unwind":
-				o.Reproduced = o.End == "HANG" || strings.Contains(text, "all goroutines are asleep")
+			case "panic", "deadlock", "unwind":
+				// a crash or a hang predicted for some schedule is confirmed by a native crash or hang of the same
+				// harness on the same inputs: which of the two forms a schedule-dependent defect takes under the Go
+				// scheduler need not be the form it took under the engine's schedule
+				o.Reproduced = strings.HasPrefix(o.End, "PANIC") || (o.End == "" && (strings.Contains(text, "panic:") || strings.Contains(text, "fatal error:"))) ||
+					o.End == "HANG" || strings.Contains(text, "all goroutines are asleep")
 			case "race":
 				o.Reproduced = libraryRaceReported(text)
 				if o.Reproduced {
@@ -166,7 +168,15 @@ func runReplayPkg(pkg string, cases []*replayFile, idxs []int, workDir string) s
 		}
 		vTextShape = r % 3
 		last := r == repeat-1 || time.Since(start) > 45*time.Second
+		// every fourth attempt runs on a single processor (the engine models runtime.GOMAXPROCS(0) as 1)
+		procs := 0
+		if r%4 == 2 {
+			procs = runtime.GOMAXPROCS(1)
+		}
 		stop := vReplayOnce(i, model, f, last, class, id)
+		if procs > 0 {
+			runtime.GOMAXPROCS(procs)
+		}
 		atomic.StoreUint32(&vJitOn, 0)
 		if stop || last {
 			return
@@ -224,10 +234,8 @@ func vReplayOnce(i int, model map[string]int64, f func(), last bool, class, id s
 				bad = true
 			}
 		}
-	case "panic":
-		bad = len(end) >= 5 && end[:5] == "PANIC"
-	case "deadlock", "unwind":
-		bad = end == "HANG"
+	case "panic", "deadlock", "unwind":
+		bad = end == "HANG" || (len(end) >= 5 && end[:5] == "PANIC")
 	case "leak":
 		bad = leaked > 0 || end == "HANG"
 	default:
